@@ -13,6 +13,11 @@
    Nondeterministic inputs are arguments of the action: whether ListenUDPFunc succeeds, the value
    drawn by rand.Intn (any natural, reduced mod len(Addrs)), and which ready branch ReadFrom's select
    takes when both the queue and closeChan are ready.
+   Socket faults: [ce k] says whether Close() of socket k reports an error (any assignment; the
+   socket is closed either way, as with close(2)).  hop and Close discard the error of prevConn's
+   Close ("_ = u.prevConn.Close()"); Close returns the error of currentConn's Close, after it has
+   closed closeChan and set the closed flag.  The result of a socket Close is part of the boundary
+   call [OSockClose k err].
    Definitions only. *)
 From Hy Require Import lib.Res gen.ParamsC19.
 From Coq Require Import ZArith Bool.
@@ -39,11 +44,12 @@ Record st := mkSt {
                               check and now sit in the two-way select *)
 }.
 
-Inductive ret := RNil | RWrote | RClosed | RPkt (n : N) | RTimeout | RPanic.
+Inductive ret := RNil | RWrote | RClosed | RPkt (n : N) | RTimeout | RPanic
+                 | RSockErr.   (* the error reported by a socket's own Close, passed on to the caller *)
 
 Inductive out :=
 | OListen (ok : bool)                       (* ListenUDPFunc was called *)
-| OSockClose (k : nat)
+| OSockClose (k : nat) (err : bool)         (* socket k . Close() was called and reported an error or not *)
 | OSockSet (k : nat) (kd : setkind) (v : Z)
 | OSockWrite (k : nat) (port : N) (d : N)   (* socket k . WriteTo(payload d, (server IP, port)) *)
 | ORet (r : ret).                           (* value returned to the caller of the API *)
@@ -71,8 +77,8 @@ Definition sock_open (l : list sock) (k : nat) : bool :=
 Definition close_opt (p : option nat) (l : list sock) : list sock :=
   match p with Some k => close_sock k l | None => l end.
 
-Definition out_close_opt (p : option nat) : list out :=
-  match p with Some k => [OSockClose k] | None => [] end.
+Definition out_close_opt (ce : nat -> bool) (p : option nat) : list out :=
+  match p with Some k => [OSockClose k (ce k)] | None => [] end.
 
 (* hop(): "Set buffer sizes if previously set", deadlines if non-zero, on the new socket n *)
 Definition hop_sets (n : nat) (s : st) : list out :=
@@ -107,7 +113,7 @@ Definition ret_of_item (x : item) : ret :=
   match x with IPkt n => RPkt n | ITimeout => RTimeout end.
 
 (* ps = the ports of Addrs (all with the server's IP), fixed at construction *)
-Definition step (ps : list N) (s : st) (a : action) : st * list out :=
+Definition step (ps : list N) (ce : nat -> bool) (s : st) (a : action) : st * list out :=
   match a with
   | AHop ok r =>
       if closed s then (s, [])                           (* ListenUDPFunc is not even called *)
@@ -117,7 +123,7 @@ Definition step (ps : list N) (s : st) (a : action) : st * list out :=
         (mkSt (Some (cur s)) n (r mod length ps) false
               (close_opt (prev s) (socks s) ++ [mkSock true 0]) (queue s)
               (rbuf s) (wbuf s) (dl s) (rdl s) (wdl s) (armed s),
-         [OListen true] ++ out_close_opt (prev s) ++ hop_sets n s)
+         [OListen true] ++ out_close_opt ce (prev s) ++ hop_sets n s)   (* "_ = u.prevConn.Close()" *)
   | AWrite d =>
       if closed s then (s, [ORet RClosed])
       else match nth_error ps (idx s) with
@@ -146,10 +152,13 @@ Definition step (ps : list N) (s : st) (a : action) : st * list out :=
   | AClose =>
       if closed s then (s, [ORet RNil])
       else
+        (* if prevConn != nil { _ = prevConn.Close() }; err := currentConn.Close();
+           close(closeChan); closed = true; return err *)
         (mkSt (prev s) (cur s) (idx s) true
               (close_sock (cur s) (close_opt (prev s) (socks s))) (queue s)
               (rbuf s) (wbuf s) (dl s) (rdl s) (wdl s) (armed s),
-         out_close_opt (prev s) ++ [OSockClose (cur s); ORet RNil])
+         out_close_opt ce (prev s) ++
+         [OSockClose (cur s) (ce (cur s)); ORet (if ce (cur s) then RSockErr else RNil)])
   end.
 
 (* NewUDPHopPacketConn after the interval check: listen, then rand.Intn(len(addrs)) *)
@@ -160,11 +169,11 @@ Definition init (ps : list N) (listen_ok : bool) (r0 : nat) : Res st :=
        | _ => Ok (mkSt None 0 (r0 mod length ps) false [mkSock true 0] [] 0 0 0 0 0 [])
        end.
 
-Fixpoint run (ps : list N) (s : st) (l : list action) : st * list out :=
+Fixpoint run (ps : list N) (ce : nat -> bool) (s : st) (l : list action) : st * list out :=
   match l with
   | [] => (s, [])
-  | a :: t => let '(s1, o1) := step ps s a in
-              let '(s2, o2) := run ps s1 t in (s2, o1 ++ o2)
+  | a :: t => let '(s1, o1) := step ps ce s a in
+              let '(s2, o2) := run ps ce s1 t in (s2, o1 ++ o2)
   end.
 
 (* ---------------- hop interval (conn.go:107-121, 165-170); time.Duration = int64 nanoseconds *)
